@@ -255,6 +255,9 @@ func c01Gen(tier string, emit func(c01Case)) {
 		}
 	}
 	packEmit("depth", "q2", deep)
+
+	// ---- family 3: atom catalogue
+	c01AtomCases(emit)
 }
 
 func c01Profile(forms []*F) string {
@@ -324,6 +327,10 @@ func c01Expected(f *F, g *Graph) (map[string]bool, bool) {
 }
 
 func c01Run(c *Ctx, cs c01Case) {
+	if cs.Fam == "atoms" {
+		c01RunAtoms(c, cs)
+		return
+	}
 	g, data := c01Graph(cs.Graph)
 	obs, prof, res := c01Eval(cs.Forms, data)
 	c.Eval(1)
